@@ -230,8 +230,8 @@ def make_desc(old, route, dest, cfg, pay, pre=False, pv=None):
         pay = PAYLOADS[0]
     if new is None or from_uninit:
         dest = "DAbsent"
-    elif route[0] in ("move-edit", "copy-move"):
-        dest = "DAbsent"
+    elif route[0] == "copy-move" or (route[0] == "move-edit" and dest != "DInit"):
+        dest = "DAbsent"      # (move-edit with DInit: the move is rejected, the edit is then an ordinary re-key)
     elif route[0] not in ("move", "clone"):
         from signac.job import calc_id
         if calc_id(new) == calc_id(old):
@@ -344,14 +344,15 @@ def build_script(desc, calc_id):
         ops.append((0, ["Init", 0, False]))
         ops += pay_ops(0, desc["pay"])
     nh = 1
+    dsp = old if route[0] in ("move-edit", "copy-move") else nsp      # mirror of CorrC04.dest_sp
     if desc["dest"] == "DInit":
-        ops += [(0, ["OpenSp", sd, typed(nsp)]), (0, ["Init", 1, False])] + pay_ops(1, desc["dpay"])
+        ops += [(0, ["OpenSp", sd, typed(dsp)]), (0, ["Init", 1, False])] + pay_ops(1, desc["dpay"])
         nh = 2
     elif desc["dest"] == "DHandle":
-        ops.append((0, ["OpenSp", sd, typed(nsp)]))
+        ops.append((0, ["OpenSp", sd, typed(dsp)]))
         nh = 2
     elif desc["dest"] == "DEmptyDir":
-        ops.append((0, ["PlantDir", [dproj, "workspace", calc_id(nsp)]]))
+        ops.append((0, ["PlantDir", [dproj, "workspace", calc_id(dsp)]]))
     oid = calc_id(old)
     ns = 2
     prov = desc["prov"]
